@@ -31,8 +31,8 @@ func init() {
 			{ID: "C18.R5", Min: 5, Doc: "unpublish before shutdown: in a function that both Stores a new snapshot and calls Shutdown on a route/aggregator/destination, the Store dominates the Shutdown call; a send on a channel field whose only receiver is a select loop that can return must be inside a select with another ready case", Run: c18r5},
 			{ID: "C18.R6", Min: 3, Doc: "lockset: every access to Destination.Matcher on an object that is neither freshly allocated nor a Snapshot() copy happens while lockMatcher is held", Run: c18r6},
 			{ID: "C18.R7", Min: 2, Doc: "a modification takes effect: in route.update and Destination.Update the flag under which the new filter is built and installed becomes true for each of the six filter options and is never cleared or recomputed inside the option loop (part of rule C20.R1 evaluated for this property as well)", Run: func(c *Check) {
-				checkUpdateFlag(c, c.P.Func("route", "*baseRoute", "update"), "route.baseRoute.update (modRoute)")
-				checkUpdateFlag(c, c.P.Func("destination", "*Destination", "Update"), "destination.Destination.Update (modDest)")
+				checkUpdateFlag(c, funcCalling(c.P, c.P.Func("route", "*baseRoute", "update"), modPath+"/matcher.New"), "route.baseRoute.update (modRoute)")
+				checkUpdateFlag(c, funcCalling(c.P, c.P.Func("destination", "*Destination", "Update"), modPath+"/matcher.New"), "destination.Destination.Update (modDest)")
 			}},
 		},
 	})
@@ -204,6 +204,21 @@ func c18r2(c *Check) {
 				return m.field != nil && m.field.Type().String() == "sync.Mutex" && sameBase(m.base, base)
 			}
 			lock, held := heldAt(ops, same, in)
+			if !held && len(ops) == 0 && storeCallersHoldLock(c.P, fn, base, 0) {
+				// a publishing helper (modify(edit)) that takes no lock itself: every call site holds the owner's
+				// mutex; the Load the Store derives from lies in the helper as well, i.e. in the same critical section
+				okLoads := true
+				for _, l := range loads {
+					lb, lf, _ := publishedAccess(l, atomicLoad)
+					if lf == fld && !sameBase(lb, base) {
+						okLoads = false
+					}
+				}
+				if okLoads {
+					c.Hold(key, c.At(in), "helper without lock operations; every call site holds the owner's mutex around the call")
+					return
+				}
+			}
 			if !held {
 				c.Violate(key, c.At(in), "Store of a published snapshot without the owner's mutex held: two writers can each derive a new snapshot from the same old one and one change is lost")
 				return
@@ -308,12 +323,13 @@ func c18r4(c *Check) {
 		type idxVar struct {
 			name string
 			is   func(v ssa.Value) bool
+			par  *ssa.Parameter
 		}
 		var cands []idxVar
 		for _, par := range fn.Params {
 			par := par
 			if b, ok := par.Type().Underlying().(*types.Basic); ok && b.Kind() == types.Int {
-				cands = append(cands, idxVar{par.Name(), func(v ssa.Value) bool { return v == ssa.Value(par) }})
+				cands = append(cands, idxVar{par.Name(), func(v ssa.Value) bool { return v == ssa.Value(par) }, par})
 			}
 		}
 		for _, fv := range fn.FreeVars {
@@ -326,7 +342,7 @@ func c18r4(c *Check) {
 				cands = append(cands, idxVar{fv.Name(), func(v ssa.Value) bool {
 					u, ok := v.(*ssa.UnOp)
 					return ok && u.Op == token.MUL && u.X == ssa.Value(fv)
-				}})
+				}, nil})
 			}
 		}
 		for _, cand := range cands {
@@ -357,133 +373,174 @@ func c18r4(c *Check) {
 			}
 			key := fmt.Sprintf("%s index %s", FuncName(EnclosingDecl(fn)), cand.name)
 			// find guard: if par >= len(x) (x tainted) -> true edge returns non-nil error without Store
-			var guard *ssa.If
-			inSucc, outSucc := 1, 0
-			isLenOf := func(v ssa.Value, ok2 func(ssa.Value) bool) bool {
-				call, ok := v.(*ssa.Call)
-				if !ok {
-					return false
+			findGuard := func(gf *ssa.Function, candIs func(ssa.Value) bool) (*ssa.If, int, int) {
+				var guard *ssa.If
+				inSucc, outSucc := 1, 0
+
+				isLenOf := func(v ssa.Value, ok2 func(ssa.Value) bool) bool {
+					call, ok := v.(*ssa.Call)
+					if !ok {
+						return false
+					}
+					b, ok := call.Call.Value.(*ssa.Builtin)
+					return ok && b.Name() == "len" && ok2(call.Call.Args[0])
 				}
-				b, ok := call.Call.Value.(*ssa.Builtin)
-				return ok && b.Name() == "len" && ok2(call.Call.Args[0])
-			}
-			allInstrs(fn, func(in ssa.Instruction) {
-				ifi, ok := in.(*ssa.If)
-				if !ok {
-					return
-				}
-				bo, ok := ifi.Cond.(*ssa.BinOp)
-				if !ok {
-					return
-				}
-				isLen := func(v ssa.Value) bool {
-					return isLenOf(v, func(x ssa.Value) bool { return t.is(x) || t.shape(x).tainted })
-				}
-				if (bo.Op == token.GEQ && cand.is(bo.X) && isLen(bo.Y)) || (bo.Op == token.LEQ && cand.is(bo.Y) && isLen(bo.X)) {
-					guard = ifi
-				}
-			})
-			if guard == nil {
-				// the bound test lives in a validator: err := checkIndex(snapshot, index); if err != nil { return err }
-				allInstrs(fn, func(in ssa.Instruction) {
-					call, ok := in.(*ssa.Call)
-					if !ok || guard != nil {
+				allInstrs(gf, func(in ssa.Instruction) {
+					ifi, ok := in.(*ssa.If)
+					if !ok {
 						return
 					}
-					g := call.Call.StaticCallee()
-					if g == nil || len(g.Blocks) == 0 || !ModuleFunc(g) {
+					bo, ok := ifi.Cond.(*ssa.BinOp)
+					if !ok {
 						return
 					}
-					res := g.Signature.Results()
-					if res.Len() != 1 || !types.Identical(res.At(0).Type(), errorType) {
-						return
+					isLen := func(v ssa.Value) bool {
+						return isLenOf(v, func(x ssa.Value) bool { return t.is(x) || t.shape(x).tainted })
 					}
-					pi := -1
-					hasSnap := false
-					for ai, a := range call.Call.Args {
-						if cand.is(a) {
-							pi = ai
-						}
-						if t.is(a) || t.shape(a).tainted || isSnapshotLoad(strip(a)) {
-							hasSnap = true
-						}
+					if (bo.Op == token.GEQ && candIs(bo.X) && isLen(bo.Y)) || (bo.Op == token.LEQ && candIs(bo.Y) && isLen(bo.X)) {
+						guard = ifi
 					}
-					if pi < 0 || !hasSnap || pi >= len(g.Params) {
-						return
-					}
-					par := g.Params[pi]
-					// in g: the edge on which par >= len(<something of another parameter>) returns only non-nil errors,
-					// and no nil error is returned without passing that test
-					okHelper := false
-					for _, b := range g.Blocks {
-						ifi, ok := b.Instrs[len(b.Instrs)-1].(*ssa.If)
-						if !ok {
-							continue
+				})
+				if guard == nil {
+					// the bound test lives in a validator: err := checkIndex(snapshot, index); if err != nil { return err }
+					allInstrs(gf, func(in ssa.Instruction) {
+						call, ok := in.(*ssa.Call)
+						if !ok || guard != nil {
+							return
 						}
-						bo, ok := ifi.Cond.(*ssa.BinOp)
-						if !ok {
-							continue
+						g := call.Call.StaticCallee()
+						if g == nil || len(g.Blocks) == 0 || !ModuleFunc(g) {
+							return
 						}
-						fromParam := func(x ssa.Value) bool {
-							// an accessor of a parameter (conf.Dests()) counts as part of it
-							if call, ok := x.(*ssa.Call); ok && len(call.Call.Args) <= 1 {
-								if call.Call.IsInvoke() && len(call.Call.Args) == 0 {
-									x = call.Call.Value
-								} else if !call.Call.IsInvoke() && len(call.Call.Args) == 1 {
-									x = call.Call.Args[0]
-								}
+						res := g.Signature.Results()
+						if res.Len() != 1 || !types.Identical(res.At(0).Type(), errorType) {
+							return
+						}
+						pi := -1
+						hasSnap := false
+						for ai, a := range call.Call.Args {
+							if candIs(a) {
+								pi = ai
 							}
-							for _, q := range g.Params {
-								if q != par && derivedFrom(x, q, map[ssa.Value]bool{}) {
-									return true
-								}
+							if t.is(a) || t.shape(a).tainted || isSnapshotLoad(strip(a)) {
+								hasSnap = true
 							}
-							return false
 						}
-						if !((bo.Op == token.GEQ && bo.X == ssa.Value(par) && isLenOf(bo.Y, fromParam)) || (bo.Op == token.LEQ && bo.Y == ssa.Value(par) && isLenOf(bo.X, fromParam))) {
-							continue
+						if pi < 0 || !hasSnap || pi >= len(g.Params) {
+							return
 						}
-						good := true
-						for _, rb := range g.Blocks {
-							ret, ok := rb.Instrs[len(rb.Instrs)-1].(*ssa.Return)
+						par := g.Params[pi]
+						// in g: the edge on which par >= len(<something of another parameter>) returns only non-nil errors,
+						// and no nil error is returned without passing that test
+						okHelper := false
+						for _, b := range g.Blocks {
+							ifi, ok := b.Instrs[len(b.Instrs)-1].(*ssa.If)
 							if !ok {
 								continue
 							}
-							cst, isC := ret.Results[0].(*ssa.Const)
-							nilErr := isC && cst.IsNil()
-							onOut := edgeDominates(b, b.Succs[0], rb)
-							onIn := edgeDominates(b, b.Succs[1], rb)
-							if onOut && (nilErr || !isC && !isErrorCtor(ret.Results[0])) {
-								good = false
+							bo, ok := ifi.Cond.(*ssa.BinOp)
+							if !ok {
+								continue
 							}
-							if nilErr && !onIn {
-								good = false
+							fromParam := func(x ssa.Value) bool {
+								// an accessor of a parameter (conf.Dests()) counts as part of it
+								if call, ok := x.(*ssa.Call); ok && len(call.Call.Args) <= 1 {
+									if call.Call.IsInvoke() && len(call.Call.Args) == 0 {
+										x = call.Call.Value
+									} else if !call.Call.IsInvoke() && len(call.Call.Args) == 1 {
+										x = call.Call.Args[0]
+									}
+								}
+								for _, q := range g.Params {
+									if q != par && derivedFrom(x, q, map[ssa.Value]bool{}) {
+										return true
+									}
+								}
+								return false
+							}
+							if !((bo.Op == token.GEQ && bo.X == ssa.Value(par) && isLenOf(bo.Y, fromParam)) || (bo.Op == token.LEQ && bo.Y == ssa.Value(par) && isLenOf(bo.X, fromParam))) {
+								continue
+							}
+							good := true
+							for _, rb := range g.Blocks {
+								ret, ok := rb.Instrs[len(rb.Instrs)-1].(*ssa.Return)
+								if !ok {
+									continue
+								}
+								cst, isC := ret.Results[0].(*ssa.Const)
+								nilErr := isC && cst.IsNil()
+								onOut := edgeDominates(b, b.Succs[0], rb)
+								onIn := edgeDominates(b, b.Succs[1], rb)
+								if onOut && (nilErr || !isC && !isErrorCtor(ret.Results[0])) {
+									good = false
+								}
+								if nilErr && !onIn {
+									good = false
+								}
+							}
+							if good {
+								okHelper = true
 							}
 						}
-						if good {
-							okHelper = true
+						if !okHelper {
+							return
 						}
+						for _, b := range gf.Blocks {
+							ifi, ok := b.Instrs[len(b.Instrs)-1].(*ssa.If)
+							if !ok {
+								continue
+							}
+							e, errEdge, ok := errTest(ifi.Cond)
+							if !ok || e != ssa.Value(call) {
+								continue
+							}
+							guard = ifi
+							if errEdge {
+								outSucc, inSucc = 0, 1
+							} else {
+								outSucc, inSucc = 1, 0
+							}
+						}
+					})
+				}
+				return guard, inSucc, outSucc
+			}
+			guard, inSucc, outSucc := findGuard(fn, cand.is)
+			if guard == nil && cand.par != nil {
+				// a helper that is handed the slice and the index (withoutDest(dests, index)): every call site
+				// lies on the in-range edge of a bound test on the argument it passes
+				idx := -1
+				for i, p := range fn.Params {
+					if p == cand.par {
+						idx = i
 					}
-					if !okHelper {
-						return
+				}
+				ins := c.P.CG().In[fn]
+				all := len(ins) > 0 && idx >= 0
+				for _, e := range ins {
+					cc := callCommon(e.Site)
+					if e.Kind != EdgeCall || e.Dyn || cc == nil || idx >= len(cc.Args) {
+						all = false
+						break
 					}
-					for _, b := range fn.Blocks {
-						ifi, ok := b.Instrs[len(b.Instrs)-1].(*ssa.If)
-						if !ok {
-							continue
+					arg := cc.Args[idx]
+					g2, in2, _ := findGuard(e.Caller, func(v ssa.Value) bool {
+						if v == arg {
+							return true
 						}
-						e, errEdge, ok := errTest(ifi.Cond)
-						if !ok || e != ssa.Value(call) {
-							continue
-						}
-						guard = ifi
-						if errEdge {
-							outSucc, inSucc = 0, 1
-						} else {
-							outSucc, inSucc = 1, 0
-						}
+						// two loads of the same captured / local variable
+						u1, ok1 := v.(*ssa.UnOp)
+						u2, ok2 := arg.(*ssa.UnOp)
+						return ok1 && ok2 && u1.X == u2.X
+					})
+					if g2 == nil || !edgeDominates(g2.Block(), g2.Block().Succs[in2], e.Site.Block()) {
+						all = false
 					}
-				})
+				}
+				if all {
+					c.Hold(key, c.At(uses[0]), "helper: every call site passes an index that was bound-tested by the caller")
+					continue
+				}
 			}
 			if guard == nil {
 				c.Violate(key, c.At(uses[0]), "snapshot slice indexed by a caller-supplied integer without an upper-bound test")
@@ -901,4 +958,35 @@ func storeBeforeShutdown(c *Check, only string) int {
 		}
 	}
 	return nJudged
+}
+
+// storeCallersHoldLock: fn is a method whose receiver is `base`; every static call site of fn holds a
+// sync.Mutex field of the object it passes as receiver (directly, or the caller is itself such a helper).
+func storeCallersHoldLock(p *Prog, fn *ssa.Function, base ssa.Value, depth int) bool {
+	if depth > 2 || len(fn.Params) == 0 || strip(base) != ssa.Value(fn.Params[0]) {
+		return false
+	}
+	ins := p.CG().In[fn]
+	if len(ins) == 0 {
+		return false
+	}
+	for _, e := range ins {
+		cc := callCommon(e.Site)
+		if e.Kind != EdgeCall || e.Dyn || cc == nil || len(cc.Args) == 0 {
+			return false
+		}
+		recv := cc.Args[0]
+		ops := mutexOps(e.Caller)
+		same := func(m mutexOp) bool {
+			return m.field != nil && m.field.Type().String() == "sync.Mutex" && sameBase(m.base, recv)
+		}
+		if _, held := heldAt(ops, same, e.Site); held {
+			continue
+		}
+		if len(ops) == 0 && storeCallersHoldLock(p, e.Caller, recv, depth+1) {
+			continue
+		}
+		return false
+	}
+	return true
 }
